@@ -1,5 +1,6 @@
 (* C06 — Object behaves as a string-keyed map with reference semantics under any program. *)
 From Anytype Require Import Base FloatBits Value Heap ObjectProofs.
+From Anytype Require Reachable Acyclic HeapExtSpecs.
 From Anytype Require Import HeapExt HeapExtProofs.
 From Anytype Require CloneProofs. From Anytype Require Import Footprint.
 From Coq Require Import Permutation.
@@ -89,6 +90,16 @@ Proof. exact store_src_reify_enough. Qed.
 Theorem C06_new_from_leaf_by_reference : forall env h o, store_src env h (NOp o) = match eval_operand env o with Some v => Some (h, v) | None => None end.
 Proof. reflexivity. Qed.
 
+
+(* The model answers "ill-typed program" (OBad) when an operation is applied to a register of the wrong kind or to a register that
+   does not exist. Programs that pass the decidable step-wise type check [wt_run] (and the storing discipline [run_okb]) never take
+   that escape, from any well-formed acyclic state - in particular from the empty one: what the theorems say about outcomes is never
+   about a placeholder *)
+Theorem C06_typed_programs_never_ill_typed : forall (fadd fmul fdiv : Z -> Z -> Z) (of_int : Z -> Z) prog,
+  run_okb fadd fmul fdiv of_int init_state prog = true -> HeapExtSpecs.wt_run fadd fmul fdiv of_int init_state prog = true ->
+  Forall (fun r => fst r <> XRet (XO OBad)) (xrun fadd fmul fdiv of_int init_state prog).
+Proof. intros fadd fmul fdiv of_int prog. exact (HeapExtSpecs.no_obad_run fadd fmul fdiv of_int prog init_state Reachable.init_wf Acyclic.init_acyclic). Qed.
+
 Print Assumptions C06_set.
 Print Assumptions C06_set_lookup.
 Print Assumptions C06_set_odd_panics.
@@ -109,3 +120,4 @@ Print Assumptions C06_mutator_independent.
 Print Assumptions C06_new_from_appends.
 Print Assumptions C06_new_from_content.
 Print Assumptions C06_new_from_leaf_by_reference.
+Print Assumptions C06_typed_programs_never_ill_typed.
